@@ -1,6 +1,7 @@
 import HcipyVerif.Lemmas.ZernikeIndex
 import HcipyVerif.Lemmas.ZernikeTables
 import HcipyVerif.Lemmas.ZernikeTrig
+import HcipyVerif.Lemmas.ZernikeIntegral
 import Mathlib.Data.Rat.BigOperators
 
 /-!
@@ -16,6 +17,9 @@ fixes D9 and D10; the unrepaired behaviour is kept as `radialEvalOld`, `memoMode
   `radial_matches_definition`, `radial_at_zero`, `mode_at_centre`, `radial_orthonormal`,
   `normalisation_unit`, `mode_cartesian_eq_polar`, `inside_cartesian_eq_polar`; for every order:
   `radial_poly_eval`, `radial_at_zero_pos`, `radial_old_agrees_off_centre`, `radial_old_nan_at_centre`.
+* Orthonormality as integrals (Mathlib interval integrals): `pint01_is_integral`,
+  `pint01_is_weighted_integral`, `radial_orthonormal_integral`, `azimuthal_cos_cos/_sin_sin/_cos_sin`,
+  `azimuthal_orthonormal`, `zernikeR_eq_model`, `zernike_orthonormal_disc`, `zernike_orthonormal_noll`.
 * Cache (every request history): `cache_irrelevant`, `cache_irrelevant_after_any_history`,
   `cache_irrelevant_order`, `cache_old_counterexample`.
 -/
@@ -382,11 +386,148 @@ theorem cache_old_counterexample :
     runMemoSeparatedOld 1 1 1 0 [⟨3, 1, true⟩, ⟨3, 1, false⟩] [] = [0, 0] ∧
     runMemo 1 1 1 0 [⟨3, 1, true⟩, ⟨3, 1, false⟩] [] = [0, 20] := by decide +kernel
 
+section Integrals
+open intervalIntegral Real
+
+/-! ## Orthonormality over the unit disc as integrals -/
+
+/-- Coefficient integration is the interval integral: for every coefficient list `p` (rational
+coefficients, evaluated at real points) `∫₀¹ p(x) dx = pint01 p`. -/
+theorem pint01_is_integral (p : Poly) : ∫ x in (0:ℝ)..1, pevalR p x = (pint01 p : ℝ) := integral_pevalR p
+
+/-- the same with the area weight `r`: `∫₀¹ p(r) r dr = pint01 (r·p)` -/
+theorem pint01_is_weighted_integral (p : Poly) :
+    ∫ r in (0:ℝ)..1, pevalR p r * r = (pint01 (pshift 1 p) : ℝ) := by
+  rw [← integral_pevalR]
+  congr 1; funext r
+  rw [pevalR_pshift]; ring
+
+/-- real evaluation agrees with rational evaluation at rational points -/
+theorem pevalR_at_rational (p : Poly) (r : Rat) : pevalR p (r : ℝ) = ((peval p r : Rat) : ℝ) := pevalR_cast p r
+
+/-- for `n ≤ 20` the polynomial computed by the recursion is, as a real function, the factorial definition -/
+theorem radial_real_matches_definition (n m : Nat) (hn : n ≤ 20) (hm : m ≤ n) (hpar : (n - m) % 2 = 0) (x : ℝ) :
+    pevalR (radialPoly n m) x = radialR n m x := by
+  rw [radial_poly_eq_def n m hn hm hpar, pevalR_radialDef]
+
+/-- **Radial orthonormality as an integral**: `∫₀¹ R_n^m(r) R_{n'}^m(r) r dr = δ_{nn'} / (2(n+1))` for all
+`n, n' ≤ 20` of the parity of `m`, with `R` the factorial definition over `ℝ`. -/
+theorem radial_orthonormal_integral (n n' m : Nat) (hn : n ≤ 20) (hn' : n' ≤ 20) (hm : m ≤ n) (hm' : m ≤ n')
+    (hpar : (n - m) % 2 = 0) (hpar' : (n' - m) % 2 = 0) :
+    ∫ r in (0:ℝ)..1, radialR n m r * radialR n' m r * r = if n = n' then 1 / (2 * ((n : ℝ) + 1)) else 0 := by
+  have h := pint01_is_weighted_integral (pmul (radialPoly n m) (radialPoly n' m))
+  rw [radial_orthonormal n n' m hn hn' hm hm' hpar hpar'] at h
+  have e : (fun r : ℝ => radialR n m r * radialR n' m r * r)
+      = fun r => pevalR (pmul (radialPoly n m) (radialPoly n' m)) r * r := by
+    funext r
+    rw [pevalR_pmul, radial_real_matches_definition n m hn hm hpar, radial_real_matches_definition n' m hn' hm' hpar']
+  rw [e, h]
+  split <;> simp
+
+/-! ### azimuthal orthogonality on `[0, 2π]` (every integer order) -/
+
+theorem azimuthal_cos_cos (a b : ℤ) (ha : 0 < a) (hb : 0 < b) :
+    ∫ θ in (0:ℝ)..(2 * π), cos ((a : ℝ) * θ) * cos ((b : ℝ) * θ) = if a = b then π else 0 := by
+  rw [integral_cos_mul_cos_int, if_neg (show a + b ≠ 0 by omega)]
+  by_cases e : a = b
+  · rw [if_pos e, if_pos (by omega)]; ring
+  · rw [if_neg e, if_neg (by omega)]; ring
+
+theorem azimuthal_sin_sin (a b : ℤ) (ha : 0 < a) (hb : 0 < b) :
+    ∫ θ in (0:ℝ)..(2 * π), sin ((a : ℝ) * θ) * sin ((b : ℝ) * θ) = if a = b then π else 0 := by
+  rw [integral_sin_mul_sin_int, if_neg (show a + b ≠ 0 by omega)]
+  by_cases e : a = b
+  · rw [if_pos e, if_pos (by omega)]; ring
+  · rw [if_neg e, if_neg (by omega)]; ring
+
+theorem azimuthal_cos_sin (a b : ℤ) :
+    ∫ θ in (0:ℝ)..(2 * π), cos ((a : ℝ) * θ) * sin ((b : ℝ) * θ) = 0 := integral_cos_mul_sin_int a b
+
+/-- `zernike_azimuthal(m, ·)` (`√2 cos mθ`, `√2 sin |m|θ`, `1`): orthogonal, squared norm `2π` -/
+theorem azimuthal_orthonormal (m m' : ℤ) :
+    ∫ θ in (0:ℝ)..(2 * π), azimR m θ * azimR m' θ = if m = m' then 2 * π else 0 := integral_azimR_mul m m'
+
+/-- the real azimuthal factor is the one of the executable model (times `√2` for `m ≠ 0`) -/
+theorem azimR_eq_model (m : ℤ) (c s : Rat) (θ : ℝ) (hc : (c : ℝ) = cos θ) (hs : (s : ℝ) = sin θ) :
+    azimR m θ = (if m = 0 then 1 else √2) * (azimQ m c s : ℝ) := by
+  rw [azimuthal_is_cos_sin m c s θ hc hs]
+  unfold azimR
+  split
+  · simp
+  · split
+    · rfl
+    · push_cast; rfl
+
+/-- the real mode `zernikeR` is what the executable model computes: `√(n+1)·√2^{[m≠0]}·modeQ` -/
+theorem zernikeR_eq_model (n : Nat) (m : ℤ) (hn : n ≤ 20) (hv : valid n m = true) (D r c s : Rat) (θ : ℝ)
+    (hc : (c : ℝ) = cos θ) (hs : (s : ℝ) = sin θ) :
+    zernikeR n m ((2 * r / D : Rat) : ℝ) θ = √((n : ℝ) + 1) * (if m = 0 then 1 else √2) * (modeQ n m D r c s : ℝ) := by
+  obtain ⟨hv1, hv2⟩ := valid_iff.mp hv
+  unfold zernikeR modeQ
+  rw [azimR_eq_model m c s θ hc hs, ← radial_real_matches_definition n m.natAbs hn hv1 hv2, pevalR_cast,
+    peval_radialPoly]
+  push_cast
+  ring
+
+/-- **Orthonormality over the unit disc** (polar coordinates, area element `r dθ dr`): for all valid
+`(n, m)`, `(n', m')` with `n, n' ≤ 20`,
+`∫₀¹ ∫₀^{2π} Z_n^m(r, θ) Z_{n'}^{m'}(r, θ) r dθ dr = π δ_{nn'} δ_{mm'}`. -/
+theorem zernike_orthonormal_disc (n n' : Nat) (m m' : ℤ) (hn : n ≤ 20) (hn' : n' ≤ 20)
+    (hv : valid n m = true) (hv' : valid n' m' = true) :
+    ∫ r in (0:ℝ)..1, ∫ θ in (0:ℝ)..(2 * π), zernikeR n m r θ * zernikeR n' m' r θ * r
+      = if n = n' ∧ m = m' then π else 0 := by
+  obtain ⟨hv1, hv2⟩ := valid_iff.mp hv
+  obtain ⟨hv1', hv2'⟩ := valid_iff.mp hv'
+  have inner : ∀ r : ℝ, ∫ θ in (0:ℝ)..(2 * π), zernikeR n m r θ * zernikeR n' m' r θ * r
+      = (√((n : ℝ) + 1) * √((n' : ℝ) + 1) * (radialR n m.natAbs r * radialR n' m'.natAbs r * r)) *
+          (if m = m' then 2 * π else 0) := by
+    intro r
+    rw [← azimuthal_orthonormal m m', ← integral_const_mul]
+    congr 1; funext θ
+    unfold zernikeR; ring
+  simp_rw [inner]
+  rw [integral_mul_const, integral_const_mul]
+  by_cases hm : m = m'
+  · subst hm
+    rw [if_pos rfl, radial_orthonormal_integral n n' m.natAbs hn hn' hv1 hv1' hv2 hv2']
+    by_cases hnn : n = n'
+    · subst hnn
+      rw [if_pos rfl, if_pos ⟨rfl, rfl⟩]
+      have hpos : (0:ℝ) ≤ (n : ℝ) + 1 := by positivity
+      have hne : ((n : ℝ) + 1) ≠ 0 := by positivity
+      rw [Real.mul_self_sqrt hpos]
+      field_simp
+    · rw [if_neg hnn, if_neg (fun h => hnn h.1)]; ring
+  · rw [if_neg hm, if_neg (fun h => hm h.2)]; ring
+
+/-- the same for the first 231 modes in Noll numbering: `⟨Z_j, Z_k⟩ = π δ_{jk}` for `1 ≤ j, k ≤ 231` -/
+theorem zernike_orthonormal_noll (j k : Nat) (hj : 1 ≤ j) (hk : 1 ≤ k) (hj' : j ≤ 231) (hk' : k ≤ 231) :
+    ∫ r in (0:ℝ)..1, ∫ θ in (0:ℝ)..(2 * π),
+        zernikeR (nollToZernike j).1 (nollToZernike j).2 r θ * zernikeR (nollToZernike k).1 (nollToZernike k).2 r θ * r
+      = if j = k then π else 0 := by
+  have bound : ∀ i, 1 ≤ i → i ≤ 231 → (nollToZernike i).1 ≤ 20 := by
+    intro i h1 h2
+    have hb := ((noll_order_block (nollToZernike i).1 i h1).mp rfl).1
+    by_contra hc
+    have hmono := tri_mono (show 21 ≤ (nollToZernike i).1 by omega)
+    have h21 : tri 21 = 231 := by decide
+    unfold tri at hmono h21
+    omega
+  rw [zernike_orthonormal_disc _ _ _ _ (bound j hj hj') (bound k hk hk') (noll_valid j hj) (noll_valid k hk)]
+  by_cases e : j = k
+  · subst e; simp
+  · rw [if_neg e, if_neg]
+    intro h
+    exact e (noll_injective j k hj hk (Prod.ext h.1 h.2))
+
+end Integrals
+
 /-! ## Hypotheses are satisfiable -/
 
 example : valid 4 (-2) = true := by decide
 example : ∃ c s : Rat, c ^ 2 + s ^ 2 = 1 ∧ c ≠ 0 ∧ s ≠ 0 := ⟨3 / 5, 4 / 5, by norm_num, by norm_num, by norm_num⟩
 example : (4 - 0) % 2 = 0 ∧ 0 ≤ 4 ∧ 4 ≤ 20 := by decide
+example : valid 20 (-20) = true ∧ (nollToZernike 231).1 = 20 := by decide +kernel
 example : ∃ (c s : Rat) (θ : ℝ), (c : ℝ) = Real.cos θ ∧ (s : ℝ) = Real.sin θ := ⟨1, 0, 0, by simp, by simp⟩
 
 end HcipyVerif.C13
